@@ -145,3 +145,40 @@ func Verif_c28_test() {
 	verifAssert(ok, "test builtin panicked")
 	verifReach("end")
 }
+
+// programs exercising interpreter paths that need more than three bytes; the
+// byte 0x01 is a hole filled by one symbolic byte of the shell alphabet.
+var verifRunCorpus = [...]string{
+	"declare -A m; m[i]=5; echo ${m[\x01i]}", "declare -A m; m[i\x011]=5; echo ${m[@]}", "declare -A m=([\x01i]=5); echo ${!m[@]}", "declare -A m; : ${m[i\x01]=5}; echo ${m[i]}", "declare -A m=([a]=1); echo ${m[a\x01]} ${#m[@]}",
+	"a=(1 2 3); echo ${a[\x011]}", "a=(1 2 3); a[1\x01]=5; echo ${a[@]}", "a=(1 2 3); echo ${a[@]:\x01:1}", "a=(1 2); a+=(\x01); echo ${#a[@]}", "a=([\x011]=x); echo ${a[@]}", "unset a[\x01]; a=(1); unset 'a[0\x01]'",
+	"x=abc; echo ${x:\x01}", "x=abc; echo ${x:1:\x01}", "x=abc; echo ${x\x01b}", "x=abc; echo ${x/\x01/y}", "x=abc; echo ${x^\x01}", "x=abc; echo ${x@\x01}", "x=abc; echo ${#x\x01}", "x=abc; echo ${!x\x01}", "x=abc; echo ${x:-\x01} ${x:+\x01} ${y:=\x01}", "echo ${y:?\x01}", "set -- a b; echo ${@:\x01} ${*:1:\x01} ${#\x01}",
+	"echo $((1 \x01 2))", "echo $((x\x01))", "x=1; echo $((x \x01= 2)) $x", "((x\x01)); echo $?", "let x\x011; echo $x", "for ((i=0; i<2; i++\x01)); do echo $i; done", "echo $((1 ? 2 \x01 3))", "a=(1 2); echo $((a[\x01]))", "echo $((2 ** \x011)) $((1 / \x010))",
+	"[[ a \x01 b ]]; echo $?", "[[ -\x01 a ]]; echo $?", "[[ a =~ \x01 ]]; echo $?", "[[ a == [\x01] ]]; echo $?", "[ a \x01 b ]; echo $?", "test -\x01 a; echo $?", "case a in \x01) echo m;; esac", "case a\x01 in a*) echo m;; esac", "case a in a) echo 1;\x01& b) echo 2;; esac",
+	"f() { echo $1; return \x01; }; f a", "f() { local x=\x01; echo $x; }; f", "f() { shift \x01; echo $#; }; f a b", "set -\x01; echo $-", "set -o \x01", "shopt -s \x01", "trap 'echo t' \x01; kill -0 $$", "eval 'echo \x01'", "read x <<< \x01; echo $x", "getopts a\x01 o -a; echo $o", "printf '%\x01' 1", "echo -\x01 a",
+	"echo a{1,\x01}b", "echo {1..\x01}", "echo {a..c..\x01}", "echo ~\x01", "echo \"$@\x01\" \"$*\" $#", "x='a b'; echo $x\x01 \"$x\"", "IFS=\x01; x=a:b; echo $x", "echo $(echo \x01)", "echo `echo \x01`", "cat <<E\n$x\x01\nE", "cat <<-E\n\t\x01\nE", "a \x01 b", "a \x01& b; wait", "{ echo a; } \x01 x", "( exit \x01 ); echo $?", "! \x01; echo $?", "coproc \x01", "select x in a; do break; done <<< \x011",
+	"declare -\x01 v=1; echo $v", "readonly v=1; v\x01=2; echo $v", "export v\x01; echo $v", "local\x01 x", "unset -\x01 x", "x=1 y\x01=2 env", "typeset -\x01 a", "nameref r=x; r\x01=1", "declare -n r=x; x=1; echo $r\x01", "alias a\x01=b; a", "type \x01", "command -\x01 echo", "cd \x01", "pushd \x01; popd", "umask \x01", "exit \x01",
+}
+
+// Verif_c28_corpus: Run never panics on the corpus programs with one symbolic byte.
+func Verif_c28_corpus() {
+	k := verifParam("prog")
+	if k < 0 {
+		k = verifChoice("prog", len(verifRunCorpus))
+	}
+	lang := verifLang(verifParam("lang"))
+	src := []byte(verifRunCorpus[k])
+	hole := verifByte("hole")
+	verifAssume(verifInSet(hole, "ab10_ \t\n\\'\"$`{}()[]<>|&;#=+-*?!@%/:,.~^"))
+	for i := range src {
+		if src[i] == 1 {
+			src[i] = hole
+		}
+	}
+	f, err := syntax.NewParser(syntax.Variant(lang)).Parse(bytes.NewReader(src), "")
+	verifAssume(err == nil)
+	var out, errb bytes.Buffer
+	r := verifRunner(&out, &errb, Params("p1", "p2"))
+	ok := verifNoPanic(func() { r.Run(context.Background(), f) })
+	verifAssert(ok, "Runner.Run panicked")
+	verifReach("end")
+}
